@@ -52,6 +52,10 @@ class Ctx:
     def cleanup(self):
         if self._dir is not None:
             shutil.rmtree(self._dir, ignore_errors=True)
+            try:
+                os.rmdir(os.path.dirname(self._dir))      # the per-process parent, once its last case directory is gone
+            except OSError:
+                pass
             self._dir = None
 
     def _account(self, rec):
